@@ -95,7 +95,7 @@ Definition truthy (z : Z) : bool := negb (z =? 0).
 Definition can_bool (k : kind) : bool := match k with KEnum => false | _ => true end.
 Definition is_vec (k : kind) : bool := match k with KBV | KU | KS => true | _ => false end.
 
-Inductive uop := UInvert | UNeg | UAbs | UNot.
+Inductive uop := NInv | NNeg | NAbs | NNot.
 Inductive bop := BAdd | BSub | BMul | BTruncDiv | BMod | BRem | BAnd | BOr | BXor | BConcat | BShl | BShr | BAndL | BOrL.
 Inductive cop := CEq | CNe | CLt | CLe | CGt | CGe.
 Inductive view := VwU | VwS | VwBV.
@@ -178,10 +178,10 @@ Definition un_ty (op : uop) (t : ty) : option ty :=
   match t with
   | Ty k w =>
       match op, k with
-      | UInvert, (KBit | KBV | KU | KS) => Some t
-      | UNeg, (KU | KS | KInt) => Some t
-      | UAbs, KS => Some t
-      | UNot, _ => if can_bool k then Some (Ty KBool 1) else None
+      | NInv, (KBit | KBV | KU | KS) => Some t
+      | NNeg, (KU | KS | KInt) => Some t
+      | NAbs, KS => Some t
+      | NNot, _ => if can_bool k then Some (Ty KBool 1) else None
       | _, _ => None
       end
   | _ => None
@@ -342,10 +342,10 @@ Definition cmp_eval (op : cop) (a b : tval) : tval :=
 
 Definition un_val (op : uop) (z : Z) : Z :=
   match op with
-  | UInvert => - z - 1          (* every bit flipped *)
-  | UNeg => - z
-  | UAbs => Z.abs z
-  | UNot => zb (negb (truthy z))
+  | NInv => - z - 1          (* every bit flipped *)
+  | NNeg => - z
+  | NAbs => Z.abs z
+  | NNot => zb (negb (truthy z))
   end.
 
 Definition un_eval (op : uop) (a : tval) : tval :=
